@@ -75,6 +75,7 @@ class Cfg(object):
         self.unsorted_p = 0  # 0 = never; otherwise one chord in unsorted_p is not in ascending order (as after nc[i] = note)
         self.twin_entry_p = 0  # 0 = never; otherwise one bar in twin_entry_p gets, next to a sounding entry, an entry of the same value with the same pitches spelled differently
         self.reuse_p = 0  # 0 = never; otherwise one bar in reuse_p has a later entry that is the very same container object as an earlier one (possibly with another value)
+        self.duck_instruments = False  # MIDI instruments may be plain Instrument objects carrying an instrument_nr attribute
         self.gm_names = True  # MIDI instruments may carry a General MIDI name (independent of their number)
         self.twin_p = 0  # 0 = never; otherwise one bar in twin_p is followed by its enharmonic twin (same pitches, other spelling)
         self.__dict__.update(kw)
@@ -193,6 +194,10 @@ def track_st(draw, cfg):
                  "name": draw(cfg.text | st.sampled_from(GM_NAMES)) if cfg.gm_names else draw(cfg.text)}
         if cfg.subclass_p and draw(st.booleans()):
             instr["sub"] = True
+        elif cfg.duck_instruments and draw(st.integers(0, 3)) == 0:
+            # not a MidiInstrument at all: a plain Instrument that carries the attribute instrument_nr ("set the instrument if the
+            # instrument has the attribute instrument_nr")
+            instr["duck"] = True
     elif kind == "generic":
         instr = {"kind": "generic", "name": draw(cfg.text)}
     name = draw(st.none() | cfg.text)
@@ -256,6 +261,8 @@ def features(comp_or_track):
             f.add("zero-bar-track")
         if any(e["notes"] and [T.pitch(n[0], n[1]) for n in e["notes"]] != sorted(T.pitch(n[0], n[1]) for n in e["notes"]) for e in es):
             f.add("unsorted-chord")
+        if (t.get("instr") or {}).get("duck"):
+            f.add("instrument-number-on-a-plain-instrument")
         if any(e.get("sub") for e in es) or (t.get("instr") or {}).get("sub"):
             f.add("user-subclass")
         if any("bpm" in e for e in es):
